@@ -4,6 +4,9 @@ Gap-list lemmas for the ring-buffer model (C09): `isMissing`, `sortGaps`, `remov
 -/
 import Frequenz.Model.RingBuffer
 
+set_option linter.unusedSimpArgs false
+set_option linter.unusedVariables false
+
 namespace RingBuffer
 open Extracted.RingBuffer
 
